@@ -289,6 +289,12 @@ def run(ck, replay=None):
                         "replay transfer " + lab, expect_rc=(0, 3))
                 ck.note_distinct("replay/stream/" + lab)
             return "replay of one transfer case (same shard seed and case id)"
+        if spec and str(spec).startswith("trunc:"):
+            _, tseed, treps = spec.split(":")
+            for d, lab in ((dbg, "debug"), (rel, "release")):
+                fd.feed(vlib.run_one([d + "/xfer", "trunc", tseed, treps], timeout=300), "replay peer-closes-mid-message " + lab)
+                ck.note_distinct("replay/trunc/" + lab)
+            return "replay of the peer-closes-mid-message family (same seed and case count)"
         if spec:
             for d, lab, env in ((dbg, "debug", None), (rel, "release", None), (asan, "asan", asan_env)):
                 fd.feed(vlib.run_one([d + "/fdpass", "run", str(seed), "1", "only=" + spec], env=env, timeout=120), "replay fdpass " + lab)
@@ -312,6 +318,9 @@ def run(ck, replay=None):
         d, lab = (dbg, "debug") if i % 2 == 0 else (rel, "release")
         add("xfer procs %s shard %d" % (lab, i), "plain",
             argv=[d + "/xfer", "stream", str(seed * 1000 + 500 + i), str(proc_cases), "mode=procs"], timeout=300 if quick else 1500)
+    # --- peer closes mid-message: read_exact must fail on a truncated stream, read_to_end returns the prefix
+    add("trunc debug", "plain", argv=[dbg + "/xfer", "trunc", str(seed * 31), "240" if quick else "3000"], timeout=300 if quick else 1500)
+    add("trunc release", "plain", argv=[rel + "/xfer", "trunc", str(seed * 31 + 1), "240" if quick else "3000"], timeout=300 if quick else 1500)
     # --- timeouts
     add("timeouts debug", "plain", argv=[dbg + "/xfer", "timeouts", str(seed), "1" if quick else "6"], timeout=120 if quick else 600)
     add("timeouts release", "plain", argv=[rel + "/xfer", "timeouts", str(seed + 1), "1" if quick else "6"], timeout=120 if quick else 600)
